@@ -490,6 +490,11 @@ def check_updates_reach(ctx, rep):
             c11.check_setters(ctx, RuleProxy(rep, 'C05.H', 'setters::'), cls)       # an assignment to shape / invariant / mu always tells the listeners
     # the samplers that move shape / invariant / mu: proposals and restorations tell the listeners (C11.W rules on the MCMC operators)
     c11.check_inplace(ctx, RuleProxy(rep, 'C05.H', 'operators::'), rule='C11.W', only=lambda m, fn: m.name.startswith('torchtree.inference.mcmc'))
+    # what a site model keeps between calls is either refreshed under its flag or converted in a way that leaves the flag up (C11.V); the optimiser tells the listeners after
+    # every in-place step before anything is evaluated (C11.O); the transforms behind shape / pinv / mu keep torch's identity-keyed cache off (C11.X)
+    c11.check_cache_values(ctx, RuleProxy(rep, 'C05.H', 'cache-values::'), rule='C11.V', only=lambda c: c.module.name == MOD)
+    c11.check_optimizer(ctx, RuleProxy(rep, 'C05.H', 'optimizer::'))
+    c11.check_transform_cache(ctx, RuleProxy(rep, 'C05.H', 'transform-cache::'), floor=5)
     # replacing shape / invariant / mu after construction goes through Parametric.__setattr__: a property setter written for it would never run
     c11.check_parameter_setters_are_reachable(ctx, RuleProxy(rep, 'C05.H', 'setters::'), only=lambda c: c.module.name == MOD or c.module.name == 'torchtree.core.parameter')
     # the rates / probabilities that are served were computed from the current shape / invariant / mu: the dirty flag of a site model goes down only after an unconditional refresh
